@@ -202,7 +202,7 @@ def check_same_name(rep, stats):
 def check_uris(rep, stats, max_eps):
   from scales.core import ScalesUriParser
   from scales.loadbalancer.serverset import StaticServerSetProvider, ZooKeeperServerSetProvider
-  hosts = ['localhost', '10.0.0.1', 'svc-b.example.com']
+  hosts = ['localhost', '10.0.0.1', 'Svc-B.Example.com']
   ports = [1, 8080, 65535]
   eps = [(h, p) for h in hosts for p in ports]
   parser = ScalesUriParser()
@@ -226,8 +226,8 @@ def check_uris(rep, stats, max_eps):
           return
   stats['samples'].append({'uri': 'tcp://' + ','.join('%s:%d' % e for e in eps[:3])})
   zk_hosts = ['zk1:2181', 'zk1:2181,zk2:2181', '10.1.1.1:2181,10.1.1.2:2182,10.1.1.3:2183']
-  paths = ['/a', '/svc/prod/thing', '/x-y_z/0']
-  names = [None, 'http', 'thrift-mux']
+  paths = ['/a', '/svc/Prod/Thing', '/x-y_z/0']
+  names = [None, 'http', 'Thrift-Mux']
   for scheme in ('zk', 'ZK', 'Zk'):
     for h in zk_hosts:
       for p in paths:
